@@ -390,6 +390,10 @@ impl InterfaceInner {
 
                 tx_token.set_meta(meta);
                 tx_token.consume(ieee_len + frag1.buffer_len() + frag1_size, |mut tx_buf| {
+                    // The device need not hand out zeroed buffers, and the emitters below
+                    // only set the bits and octets they know about.
+                    tx_buf.fill(0);
+
                     // Add the IEEE header.
                     let mut ieee_packet = Ieee802154Frame::new_unchecked(&mut tx_buf[..ieee_len]);
                     ieee_repr.emit(&mut ieee_packet);
@@ -417,6 +421,10 @@ impl InterfaceInner {
 
             // We don't need fragmentation, so we emit everything to the TX token.
             tx_token.consume(total_size + ieee_len, |mut tx_buf| {
+                // The device need not hand out zeroed buffers, and the emitters below
+                // only set the bits and octets they know about.
+                tx_buf.fill(0);
+
                 let mut ieee_packet = Ieee802154Frame::new_unchecked(&mut tx_buf[..ieee_len]);
                 ieee_repr.emit(&mut ieee_packet);
                 tx_buf = &mut tx_buf[ieee_len..];
@@ -703,6 +711,9 @@ impl InterfaceInner {
         tx_token.consume(
             ieee_repr.buffer_len() + fragn.buffer_len() + frag_size,
             |mut tx_buf| {
+                // The device need not hand out zeroed buffers (see dispatch_sixlowpan).
+                tx_buf.fill(0);
+
                 let mut ieee_packet = Ieee802154Frame::new_unchecked(&mut tx_buf[..ieee_len]);
                 ieee_repr.emit(&mut ieee_packet);
                 tx_buf = &mut tx_buf[ieee_len..];
